@@ -1,14 +1,19 @@
 #!/usr/bin/env python3
-"""re-generates the two tables of DESIGN.md section 0 between their markers"""
+"""re-generates the tables of DESIGN.md section 0 between their markers (status, seeded changes, benign changes)"""
 import os, subprocess
 ROOT = os.path.dirname(os.path.dirname(os.path.abspath(__file__)))
 out = subprocess.run(["python3", os.path.join(ROOT, "tools", "status_table.py")], capture_output=True, text=True).stdout
-a, b = out.split("\n\n", 1)
+parts = out.split("\n\n")
+a, b = parts[0], parts[1]
+c = "\n\n".join(parts[2:]) if len(parts) > 2 else ""
 p = os.path.join(ROOT, "DESIGN.md")
 s = open(p).read()
 def put(s, name, text):
+    if "<!-- %s-BEGIN -->" % name not in s:
+        return s
     i, j = s.index("<!-- %s-BEGIN -->" % name), s.index("<!-- %s-END -->" % name)
     return s[:i] + "<!-- %s-BEGIN -->\n" % name + text.strip() + "\n" + s[j:]
 s = put(s, "STATUS-TABLE", a)
 s = put(s, "SEEDED-TABLE", b)
+s = put(s, "BENIGN-TABLE", c)
 open(p, "w").write(s)
